@@ -160,8 +160,11 @@ func (b *batch) Write() error {
 	switch {
 	case b.keys["processed"] > 0:
 		class = "blockbatch"
-	case b.keys["del-canon"] > 0 && b.keys["head"] > 0:
+	case b.keys["del-canon"] > 0 && (b.keys["head"] > 0 || b.keys["canon"] > 0 || b.keys["utxo"] > 0 || b.keys["del-utxo"] > 0):
 		class = "rollbackbatch"
+		if b.keys["head"] == 0 {
+			class = "rollbackbatch-without-head"
+		}
 	case b.keys["termini"] > 0:
 		class = "appendbatch"
 	case b.keys["trienode"] > 0 && len(b.keys) == 1:
